@@ -82,8 +82,39 @@ func init() {
 
 var textRunes = []rune("abcnrtxyzNRT019 _-+*.,;:(){}[]<>=!?&|~%#@^$`é狐犬ß😀  �\n\r\t\"'\\/")
 
+// drawRune: a pool rune, any valid code point, or a code point whose low
+// bits are those of a character the lexer treats specially.
+func drawRune(rt *rapid.T, label string) rune {
+	switch gen.Uniform(rt, label+"_cls", 8) {
+	case 0:
+		specials := []rune{'n', 'r', 't', '"', '\\', '\'', '/', '\n', ' ', '0', 'i', 'm', '.', '*', '(', '?'}
+		low := specials[gen.Uniform(rt, label+"_low", len(specials))]
+		var r rune
+		if rapid.Bool().Draw(rt, label+"_wide") {
+			r = rune(rapid.IntRange(1, 0x10ff).Draw(rt, label+"_hi"))<<8 | low
+		} else {
+			r = rune(rapid.IntRange(1, 0x10).Draw(rt, label+"_hi"))<<16 | low
+		}
+		if utf8.ValidRune(r) {
+			return r
+		}
+		return 'é'
+	case 1:
+		r := rune(rapid.IntRange(0x80, 0x10ffff).Draw(rt, label+"_any"))
+		if utf8.ValidRune(r) {
+			return r
+		}
+		return '狐'
+	}
+	return textRunes[gen.Uniform(rt, label, len(textRunes))]
+}
+
 func drawText(rt *rapid.T, label string, max int) string {
-	rs := rapid.SliceOfN(rapid.SampledFrom(textRunes), 0, max).Draw(rt, label)
+	n := rapid.IntRange(0, max).Draw(rt, label+"_len")
+	rs := make([]rune, 0, n)
+	for i := 0; i < n; i++ {
+		rs = append(rs, drawRune(rt, label))
+	}
 	return string(rs)
 }
 
